@@ -93,7 +93,9 @@ ALLROUTES = 'api,fsgtext,jsgf,aligntext'
 def _dec_runs(props, specs, nshard=16):
     """specs: list of (label, extra args); each is sharded by grammar index"""
     r = []
-    for label, extra in specs:
+    for spec in specs:
+        label, extra = spec[0], spec[1]
+        nshard = spec[2] if len(spec) > 2 else 16
         for i in range(nshard):
             r.append(dict(h='mc_decode', label='%s-shard%d' % (label, i),
                           args=['--props', props] + extra + ['--shard', '%d/%d' % (i, nshard)]))
@@ -215,7 +217,9 @@ def _lat_specs(tier, tag):
 
 def _ses_runs(props, specs, nshard=16):
     r = []
-    for label, extra in specs:
+    for spec in specs:
+        label, extra = spec[0], spec[1]
+        nshard = spec[2] if len(spec) > 2 else 16
         for i in range(nshard):
             r.append(dict(h='mc_session', label='%s-shard%d' % (label, i), args=['--props', props] + extra + ['--shard', '%d/%d' % (i, nshard)]))
     return r
@@ -224,17 +228,21 @@ def _ses_runs(props, specs, nshard=16):
 def _c09_specs(tier):
     if tier == 'quick':
         return [('c09-all-len2', ['--set', 'all', '--len', '2']), ('c09-core-len3', ['--set', 'core', '--len', '3']),
-                ('c09-proto-len5', ['--set', 'proto', '--len', '5']), ('c09-two-core-len2', ['--set', 'core', '--len', '2', '--two', '1'])]
+                ('c09-proto-len5', ['--set', 'proto', '--len', '5']), ('c09-two-core-len2', ['--set', 'core', '--len', '2', '--two', '1'])] + [
+                    ('c09-synth-%s-core-len2' % sc, ['--set', 'core', '--len', '2', '--synth', sc], 2) for sc in ('semi', 'ms', 'mixw')]
     return [('c09-all-len3', ['--set', 'all', '--len', '3']), ('c09-core-len4', ['--set', 'core', '--len', '4']),
-            ('c09-proto-len6', ['--set', 'proto', '--len', '6']), ('c09-two-core-len3', ['--set', 'core', '--len', '3', '--two', '1'])]
+            ('c09-proto-len6', ['--set', 'proto', '--len', '6']), ('c09-two-core-len3', ['--set', 'core', '--len', '3', '--two', '1'])] + [
+                ('c09-synth-%s-all-len2' % sc, ['--set', 'all', '--len', '2', '--synth', sc], 4) for sc in ('semi', 'ms', 'mixw')]
 
 
 def _c08_specs(tier):
     if tier == 'quick':
         return [('c08-all-len2', ['--set', 'all', '--len', '2']), ('c08-proto-len4', ['--set', 'proto', '--len', '4']),
-                ('c08-two-core-len2', ['--set', 'core', '--len', '2', '--two', '1'])]
+                ('c08-two-core-len2', ['--set', 'core', '--len', '2', '--two', '1'])] + [
+                    ('c08-synth-%s-proto-len3' % sc, ['--set', 'proto', '--len', '3', '--synth', sc], 1) for sc in ('semi', 'ms')]
     return [('c08-all-len3', ['--set', 'all', '--len', '3']), ('c08-core-len3', ['--set', 'core', '--len', '3']),
-            ('c08-two-core-len3', ['--set', 'core', '--len', '3', '--two', '1'])]
+            ('c08-two-core-len3', ['--set', 'core', '--len', '3', '--two', '1'])] + [
+                ('c08-synth-%s-core-len2' % sc, ['--set', 'core', '--len', '2', '--synth', sc], 2) for sc in ('semi', 'ms')]
 
 
 def _c16_specs(tier):
@@ -336,7 +344,9 @@ def _c18_runs(tier):
 SES_ASSUME = ['operation alphabet of 42 public-API calls (see harness/mc_session.c); audio = excerpts of tests/data/goforward.raw, zeros, and no samples; '
               'REAL front end and REAL acoustic scorer (no injected scores)',
               'grammar loading, dictionary additions and reinit are only issued between utterances (the documented protocol); every other call is issued in every state',
-              'small dictionary (9 words) on model en-us; each history runs in a child forked from one initialised decoder']
+              'small dictionary (9 words) on model en-us; each history runs in a child forked from one initialised decoder',
+              'C08/C09 add columns on synthetic parameter files (harness/synth_model.h) so that the semi-continuous, general multi-stream and '
+              'mixture-weight loading paths are initialised, used and freed too']
 
 DEC_ASSUME = ['audio is represented by per-frame symbols over a small phone alphabet: senone scores are base(symbol, phone of senone) + a fixed '
               'per-senone jitter, supplied through the interposed acmod_score; the front end, feature buffering and every search decision are real',
